@@ -93,7 +93,7 @@ def environ_cases(ctx, n):
         case = {"kind": "environ", "scope": {k: v for k, v in sc.items()}, "obs": obs}
         for f in fails:
             f["case"] = case
-        inp = f"(0%N, 0%Z, @nil rmsg, {scope_term(sc)}, dummy_app)"
+        inp = f"(0%N, 0%Z, @nil (option rmsg), {scope_term(sc)}, dummy_app)"
         cases.append((inp, C.V(obs), case, fails))
     return cases
 
@@ -255,6 +255,13 @@ def shape_cases(ctx, n):
         parts = [body[a:b] for a, b in zip([0] + cuts, cuts + [total])]
         for i, p in enumerate(parts):
             msgs.append({"type": "http.request", "body": p, "more_body": i < len(parts) - 1})
+        # the client leaves before its body is complete: http.disconnect in place of one of the body messages (and after it)
+        gone_at = None
+        if idx % 7 == 3:
+            gone_at = rng.randrange(0, len(msgs))
+            for m in msgs[:gone_at]:
+                m["more_body"] = True
+            msgs = msgs[:gone_at] + [{"type": "http.disconnect"}]
         worker = "asyncio" if idx % 2 == 0 else "trio"
         separate = idx % 3 == 2
         rec, sent, raised = run_shape(worker, shape, sc, [dict(m) for m in msgs], max_body, separate)
@@ -265,6 +272,20 @@ def shape_cases(ctx, n):
             else:
                 sends.append(["body", m.get("body", b""), bool(m.get("more_body", False))])
         obs = [sends, rec["closes"], raised, rec["calls"]]
+        if gone_at is not None:
+            # oracle (property text: wsgi.input holds exactly the request body): never called with a part of it; a 400 for a
+            # part that is already over the limit is the only possible answer
+            arrived = sum(len(m.get("body", b"")) for m in msgs)
+            case = {"kind": "shape-disconnect", "worker": worker, "max_body": max_body, "arrived": arrived, "messages": len(msgs), "obs": obs}
+            fails = []
+            if rec["calls"] != 0:
+                fails.append({"case": case, "what": f"application called with {rec['body_seen']!r} although the client left before the body was complete",
+                              "signature": "shape:called-after-disconnect"})
+            inp = ("(1%%N, %s, %s, %s, %s)"
+                   % (C.cZ(max_body), C.clist([("None" if m["type"] == "http.disconnect" else f"Some ({C.cbytes(m['body'])}, {C.cbool(m['more_body'])})") for m in msgs], "(option rmsg)"),
+                      scope_term(sc), shape.term()))
+            cases.append((inp, C.V(obs), case, fails))
+            continue
         case = {"kind": "shape", "worker": worker, "shape": shape.describe(), "separate_iterator": separate, "max_body": max_body,
                 "body_len": total, "parts": [len(p) for p in parts], "root_path": sc["root_path"], "path": sc["path"], "obs": obs}
         fails = []
@@ -295,7 +316,7 @@ def shape_cases(ctx, n):
                     if sends != want or raised:
                         fails.append({"case": case, "what": f"response altered: {sends} != {want}", "signature": "shape:passthrough"})
         inp = ("(1%%N, %s, %s, %s, %s)"
-               % (C.cZ(max_body), C.clist([f"({C.cbytes(m['body'])}, {C.cbool(m['more_body'])})" for m in msgs], "rmsg"),
+               % (C.cZ(max_body), C.clist([f"Some ({C.cbytes(m['body'])}, {C.cbool(m['more_body'])})" for m in msgs], "(option rmsg)"),
                   scope_term(sc), shape.term()))
         cases.append((inp, C.V(obs), case, fails))
     return cases
@@ -321,14 +342,14 @@ def websocket_case():
 
 DEFS = """
 Definition dummy_app := {| wa_call := []; wa_iter := []; wa_has_close := false |}.
-Definition run_case (c : N * Z * list rmsg * wscope * wsgi_app) : val :=
+Definition run_case (c : N * Z * list (option rmsg) * wscope * wsgi_app) : val :=
   let '(kind, max, msgs, sc, a) := c in
   match kind with
   | 0%N => v_of_environ (build_environ sc)
   | _ => v_of_result (handle_http max msgs sc a)
   end.
 """
-INPUT_TY = "N * Z * list rmsg * wscope * wsgi_app"
+INPUT_TY = "N * Z * list (option rmsg) * wscope * wsgi_app"
 
 
 def run(ctx):
